@@ -320,7 +320,7 @@ fn judge_cmplx(st: &mut Stats, rng: &mut Rng, class: &str, d: &DM<CRat>, m1: usi
 fn history_case(st: &mut Stats, rng: &mut Rng) {
     st.next_case();
     let n = rng.usize(1, 7);
-    let (m1, m2) = (rng.usize(0, n - 1), rng.usize(0, n - 1));
+    let (mut m1, mut m2) = (rng.usize(0, n - 1), rng.usize(0, n - 1));
     let cls = rng.usize(0, 1);
     let mut d = gen_band(rng, n, m1, m2, cls);
     let mut b = build(&d, m1, m2, Rat::int(rng.int(-9, 9)));
@@ -342,7 +342,7 @@ fn history_case(st: &mut Stats, rng: &mut Rng) {
                 if !band_eq(tb, td, m1, m2) { st.violation("C04:history:clone-not-independent", format!("twin entries changed after {:?}", log)); return; }
             }
         }
-        let op = rng.below(13);
+        let op = rng.below(14);
         let c = Rat::int(rng.nzint(5));
         let name: String;
         let upd = |d: &mut DM<Rat>, f: &dyn Fn(Rat) -> Rat| { for i in 0..n { for j in 0..n { if inband(i, j, m1, m2) { d.a[i][j] = f(d.a[i][j]); } } } };
@@ -370,6 +370,21 @@ fn history_case(st: &mut Stats, rng: &mut Rng) {
             7 => { name = format!("-= {:?}", c); upd(&mut d, &|x| x - c); if !catch(|| b -= c).is_ok() { return; } }
             8 => { name = format!("*= {:?}", c); upd(&mut d, &|x| x * c); if !catch(|| b *= c).is_ok() { return; } }
             9 => { name = format!("/= {:?}", c); upd(&mut d, &|x| x / c); if !catch(|| b /= c).is_ok() { return; } }
+            13 => {
+                // resize through the object's own API to the SAME order and total bandwidth but another split (or, now and then, to
+                // any other geometry), then rewrite every in-band entry through the index operator: from here on the object must
+                // behave as a banded matrix of the NEW geometry. (What resize keeps of the old contents is unspecified.)
+                let (nm1, nm2) = if rng.chance(0.7) && m1 + m2 > 0 { let a = rng.usize(0, (m1 + m2).min(n - 1)); (a, m1 + m2 - a) } else { (rng.usize(0, n - 1), rng.usize(0, n - 1)) };
+                if nm2 > n - 1 || nm1 > n - 1 { continue; }
+                name = format!("resize({},{},{}) + refill", n, nm1, nm2);
+                if !catch(|| b.resize(n, nm1, nm2)).is_ok() { st.violation("C04:history:resize:panic", format!("{} after {:?}", name, log)); return; }
+                m1 = nm1; m2 = nm2;
+                d = gen_band(rng, n, m1, m2, 1);
+                let mut ok = true;
+                for i in 0..n { for j in 0..n { if inband(i, j, m1, m2) { let v = d.a[i][j]; if !catch(|| b[(i, j)] = v).is_ok() { ok = false; } } } }
+                if !ok || b.size_below() != m1 || b.size_above() != m2 || b.size() != n { st.violation("C04:history:resize:geometry", format!("after {} the object reports n={} m1={} m2={} (in-band writes accepted: {}); history {:?}", name, b.size(), b.size_below(), b.size_above(), ok, log)); return; }
+                twin = None;
+            }
             12 => { name = format!("fill({:?})", c); upd(&mut d, &|_| c); if !catch(|| b.fill(c)).is_ok() { st.violation("C04:history:fill:panic", format!("after {:?}", log)); return; } }
             10 => { let o = gen_band(rng, n, m1, m2, 1); let ob = build(&o, m1, m2, Rat::int(3)); let plus = rng.bool(); name = format!("{} {}", if plus { "+= &B" } else { "-= &B" }, o.show());
                 for i in 0..n { for j in 0..n { if inband(i, j, m1, m2) { d.a[i][j] = if plus { d.a[i][j] + o.a[i][j] } else { d.a[i][j] - o.a[i][j] }; } } }
